@@ -288,7 +288,7 @@ fn cmd_check(prop: &str, tier: &str) -> i32 {
                                 exec: &mut e2,
                                 nonce: format!("{}a", nonce),
                                 harness_error: None,
-                                samples: if prop == "C08" { 64 } else { 8 },
+                                samples: 100_000,
                                 pick: rng::derive(rf.seed, "aux", 0),
                             };
                             let vs = oracle::judge(prop, &h, &mut aux, &mut t);
@@ -345,7 +345,8 @@ fn cmd_check(prop: &str, tier: &str) -> i32 {
                             *known_hits.entry(v.key.clone()).or_insert(0) += 1;
                             known_lines.insert(format!("KNOWN-FINDING: property={} {} [{}]", prop, k.what, k.key));
                         } else if !violations_out.iter().any(|(x, _)| x.key == v.key) && violations_out.len() < 5 {
-                            let path = report_violation(&bins, prop, &v, &h, 0, violations_out.len(), b.aux_samples, &[format!("directed scenario {}", name)]);
+                            let eff = if b.aux_samples > 0 { sc_samples.max(b.aux_samples) } else { 0 };
+                            let path = report_violation(&bins, prop, &v, &h, 0, violations_out.len(), eff, &[format!("directed scenario {}", name)]);
                             violations_out.push((v, path));
                         }
                     }
@@ -555,7 +556,7 @@ fn report_violation(
         key: v.key.clone(),
         nonce,
         pick: rng::derive(seed, "aux", 0),
-        samples: aux_samples.max(if prop == "C08" { 64 } else { 0 }),
+        samples: if aux_samples > 0 { aux_samples.max(4096) } else { 0 },
         executions: 0,
         budget: 400,
     };
@@ -593,7 +594,8 @@ fn replay_fires(rf: &ReplayFile, e1: &mut Executor, e2: &mut Executor) -> Result
         exec: e2,
         nonce: format!("{}a", nonce),
         harness_error: None,
-        samples: if rf.property == "C08" { 64 } else { 8 },
+        // a replay judges every candidate of the (minimised) schedule
+        samples: 100_000,
         pick: rng::derive(rf.seed, "aux", 0),
     };
     let vs = oracle::judge(&rf.property, &h, &mut aux, &mut t);
